@@ -690,3 +690,146 @@ Lemma good_VBool b : good (VBool b) = true. Proof. reflexivity. Qed.
 Lemma good_VNum n : good (VNum n) = true. Proof. reflexivity. Qed.
 Lemma good_VStr s : good (VStr s) = true. Proof. reflexivity. Qed.
 Lemma good_VUnk t r : good (VUnk t r) = false. Proof. reflexivity. Qed.
+
+Lemma diag_ok_cons_err s fr l : diag_ok (derr s fr :: l) = false.
+Proof. reflexivity. Qed.
+Lemma diag_ok_cons_unsup l : diag_ok (dunsupported :: l) = false.
+Proof. unfold diag_ok. simpl. apply andb_false_r. Qed.
+
+(* [E : (x, diags) = (v, ds)] and [D : diag_ok ds = true] where diags visibly contain an error *)
+Ltac dead E D :=
+  injection E as <- <-;
+  repeat rewrite diag_ok_app in D;
+  rewrite ?diag_ok_cons_err, ?diag_ok_cons_unsup in D;
+  rewrite ?andb_false_r, ?andb_false_l in D; discriminate D.
+
+Lemma diag_ok_has_errors ds : has_errors ds = true -> diag_ok ds = false.
+Proof. unfold diag_ok. intros ->. reflexivity. Qed.
+Lemma diag_ok_has_unsupported ds : has_unsupported ds = true -> diag_ok ds = false.
+Proof. unfold diag_ok. intros ->. apply andb_false_r. Qed.
+
+(* ---- the unknown-condition branch of ConditionalExpr.Value, as a function -------------------- *)
+(* verbatim copy of the corresponding part of [eval_with] (Impl.v, ECond, [negb (is_known cu)]);
+   [eval_cond_unknown_eq] in the files using it checks by conversion that it IS that part. *)
+Definition cond_unk (rt : ty) (cds : list diag) (mk : marks) (tu fu : val) : val * list diag :=
+  let nn := match definitely_not_null tu, definitely_not_null fu with
+            | Some a, Some b => Some (a && b) | _, _ => None end in
+  match tu, fu with
+  | VNull _, VNull _ => (with_marks (VNull rt) mk, cds)
+  | _, _ =>
+    match nn with
+    | None => (with_marks (VUnk rt RWild) mk, cds)
+    | Some nnb =>
+      if ty_eqb (type_of tu) TNum && ty_eqb (type_of fu) TNum then
+        match num_lo tu, num_lo fu, num_hi tu, num_hi fu with
+        | Some tlo, Some flo, Some thi, Some fhi =>
+            let lo := match tlo, flo with
+                      | Some (a, ai), Some (b, bi) =>
+                          if num_ltb a b then Some (a, ai)
+                          else if num_eqb a b then Some (b, ai || bi) else Some (b, bi)
+                      | _, _ => None end in
+            let hi := match thi, fhi with
+                      | Some (a, ai), Some (b, bi) =>
+                          if num_ltb b a then Some (a, ai)
+                          else if num_eqb a b then Some (b, ai || bi) else Some (b, bi)
+                      | _, _ => None end in
+            let lo := match lo with Some (NInf false, _) => None | o => o end in
+            let hi := match hi with Some (NInf true, _) => None | o => o end in
+            (with_marks (finish_unknown TNum (mkRefn nnb [] lo hi 0 None)) mk, cds)
+        | _, _, _, _ => (with_marks (VUnk TNum RWild) mk, cds)
+        end
+      else if is_collection (type_of tu) && is_collection (type_of fu) && ty_eqb (type_of tu) (type_of fu) then
+        match len_lo tu, len_lo fu, len_hi tu, len_hi fu with
+        | Some tl, Some fl, Some th, Some fh =>
+            let lo := Z.min tl fl in
+            let hi := match th, fh with Some a, Some b => Some (Z.max a b) | _, _ => None end in
+            (with_marks (finish_unknown rt (mkRefn nnb [] None None lo hi)) mk, cds)
+        | _, _, _, _ => (with_marks (VUnk rt RWild) mk, cds)
+        end
+      else (with_marks (VUnk rt (RExact (mkRefn nnb [] None None 0 None))) mk, cds)
+    end
+  end.
+
+Lemma cond_unk_snd rt cds mk tu fu : snd (cond_unk rt cds mk tu fu) = cds.
+Proof.
+  unfold cond_unk.
+  repeat match goal with
+         | |- context [match ?x with _ => _ end] => destruct x
+         end; reflexivity.
+Qed.
+
+(* ---- nullness through conversion ------------------------------------------------------------- *)
+Definition null_shape (v : val) : bool := match v with VNull _ => true | _ => false end.
+
+Lemma finish_unknown_not_null t x : null_shape (finish_unknown t x) = false.
+Proof.
+  unfold finish_unknown. destruct (negb (r_notnull x)); [reflexivity|].
+  destruct t; try reflexivity.
+  - destruct (r_lo x) as [[a [|]]|]; try reflexivity. destruct (r_hi x) as [[b [|]]|]; try reflexivity.
+    destruct (num_eqb a b); reflexivity.
+  - destruct (r_lenhi x); [|reflexivity]. destruct (r_lenlo x =? z); reflexivity.
+  - destruct (r_lenhi x); [|reflexivity]. destruct (r_lenlo x =? z); [|reflexivity].
+    destruct (z =? 0); [reflexivity|]. destruct (z =? 1); reflexivity.
+  - destruct (r_lenhi x); [|reflexivity]. destruct ((r_lenlo x =? z) && (z =? 0)); reflexivity.
+Qed.
+
+(* for an unmarked source: the result is a null only if the source is *)
+Lemma convert_null_inv f v t r :
+  convert (S f) v t = COk r -> is_marked v = false -> null_shape r = true -> null_shape v = true.
+Proof.
+  intros E M N. apply convert_inv in E.
+  destruct E; try exact N; try discriminate; try reflexivity.
+  destruct (conv_unknown_rf t rf want); [discriminate|].
+  rewrite finish_unknown_not_null in N. discriminate.
+Qed.
+
+Lemma conv_null_inv v t r :
+  conv v t = COk r -> is_marked v = false -> null_shape r = true -> null_shape v = true.
+Proof. unfold conv. apply convert_null_inv. Qed.
+
+Lemma is_null_unmarked v : is_marked v = false -> is_null v = null_shape v.
+Proof. destruct v; try reflexivity. discriminate. Qed.
+Lemma is_null_unmark v u m : unmark v = (u, m) -> is_null v = null_shape u.
+Proof. unfold is_null. intros ->. reflexivity. Qed.
+
+Lemma is_known_with_marks v m : is_known (with_marks v m) = is_known v.
+Proof. destruct m; [reflexivity|]. destruct v; reflexivity. Qed.
+Lemma is_null_with_marks v m : is_null (with_marks v m) = is_null v.
+Proof. destruct m; [reflexivity|]. destruct v; reflexivity. Qed.
+Lemma is_known_with_same_marks v s : is_known (with_same_marks v s) = is_known v.
+Proof. apply is_known_with_marks. Qed.
+Lemma type_of_with_same_marks v s : type_of (with_same_marks v s) = type_of v.
+Proof. apply type_of_with_marks. Qed.
+
+(* destruct the innermost scrutinee at the head of [E : match ... end = _] *)
+Ltac destruct_scrut x :=
+  lazymatch x with
+  | match ?y with _ => _ end => destruct_scrut y
+  | _ => destruct x
+  end.
+Ltac destruct_head E :=
+  match type of E with
+  | match ?x with _ => _ end = _ => destruct_scrut x
+  end.
+
+Lemma mwf_VMark_inv m v : mwf (VMark m v) = true -> is_marked v = false /\ mwf v = true.
+Proof. simpl. intros H. apply andb_true_iff in H as [H1 H2]. apply negb_true_iff in H1. split; assumption. Qed.
+
+Lemma convert_is_null : forall f v t r,
+  mwf v = true -> convert f v t = COk r -> is_null r = true -> is_null v = true.
+Proof.
+  induction f as [|f IH]; intros v t r W E N; [discriminate|].
+  destruct (is_marked v) eqn:M.
+  - destruct v; try discriminate. apply mwf_VMark_inv in W as [Mv Wv].
+    cbn [convert] in E. destruct (convert f v t) as [r'| |] eqn:E'; try discriminate.
+    injection E as <-. rewrite is_null_with_marks in N.
+    pose proof (IH v t r' Wv E' N) as Nv. rewrite (is_null_unmarked _ Mv) in Nv.
+    unfold is_null. simpl. destruct v; try discriminate; reflexivity.
+  - rewrite (is_null_unmarked _ M).
+    assert (Mr : is_marked r = false).
+    { apply convert_inv in E. inversion E; subst; try reflexivity; try discriminate; try assumption.
+      destruct (conv_unknown_rf t0 rf t) as [|x]; [reflexivity|].
+      unfold finish_unknown. repeat match goal with |- context [match ?y with _ => _ end] => destruct y end;
+        reflexivity. }
+    rewrite (is_null_unmarked _ Mr) in N. apply (convert_null_inv f v t r E M N).
+Qed.
